@@ -12,6 +12,7 @@ every scope, so no verdict depends on scoping (that is C03).
 """
 from __future__ import annotations
 
+import itertools
 import json
 
 from mc import boot, par
@@ -231,6 +232,32 @@ def family_programs():
                             yield Program(label(page, "P"), comps, dict(PAGE_CTX))
 
 
+def page_alias_programs():
+    """The `default=` alias written in the PAGE template (no enclosing component): the slot's own content - which may hold
+    component tags - is re-emitted once / twice / inside the body of a further component / inside that component rendered in a
+    loop; the same page also as the template of a component `top`."""
+    from mc.proggen import label
+
+    T = ("T", None)
+    E = ("Comp", "e", (), False, None)
+    D = ("D", "d")
+    for slot_body in ((T,), (T, E), (E,), (E, T, E), (("For", "n", "xy", (E,)),)):
+        for flag in ("", "d"):
+            for fill_body in ((D,), (D, T, D), (("Comp", "c", (), False, (D, T)),), (T, ("Comp", "r", (), False, (D,))), (("Comp", "c", (), False, (("Comp", "c", (), False, (D,)),)),)):
+                for top in (False, True):
+                    b_tpl = (T, ("Slot", "x", flag, (), slot_body))
+                    page = (("Comp", "b", (), False, (("Fill", "x", None, "d", fill_body),)),)
+                    comps = {"b": make_spec("b", label(b_tpl, "B")), "e": make_spec("e", label((T,), "E")),
+                             "c": make_spec("c", label((("Slot", "z", "d", (), (T,)),), "C")),
+                             "r": make_spec("r", label((("For", "n", "xy", (("Slot", "z", "d", (), ()),)),), "R"))}
+                    if top:
+                        comps["top"] = make_spec("top", label(page, "P"))
+                        page = (("Comp", "top", (), False, None),)
+                        yield Program(page, comps, dict(PAGE_CTX))
+                    else:
+                        yield Program(label(page, "P"), comps, dict(PAGE_CTX))
+
+
 SIDE_VARIANTS = tuple((pos, kind) for pos in SIDE_POS for kind in SIDE_KINDS)
 SIDE_VARIANTS_QUICK = (("before", "fail_child"), ("after", "fail"))
 
@@ -240,7 +267,7 @@ def family_worker(w, W, payload):
     boot.set_components_setting(context_behavior=mode)
     h = Harness()
     agg = par.Agg()
-    for i, prog in enumerate(family_programs()):
+    for i, prog in enumerate(itertools.chain(family_programs(), page_alias_programs())):
         if i % W != w:
             continue
         agg.states += 1
